@@ -22,6 +22,10 @@ const keptConst = "constant-string-1"
 
 var linked = "linker-x-variable"
 
+var linkedParen = ("linked-in-parentheses")
+
+var linkedConv = string("linked-by-conversion")
+
 var plain = "variable-string-22"
 
 var firstOfTwo, linkedSecond = "first-of-two-names", "second-name-is-linked"
@@ -84,6 +88,8 @@ func H_C05_L11_traversal() {
 	linkStrings := map[*types.Var]string{
 		pkg.Scope().Lookup("linked").(*types.Var):       "injected",
 		pkg.Scope().Lookup("linkedSecond").(*types.Var): "injected too",
+		pkg.Scope().Lookup("linkedParen").(*types.Var):  "injected 3",
+		pkg.Scope().Lookup("linkedConv").(*types.Var):   "injected 4",
 	}
 	testPkgToObfuscatorMap = map[string]obfuscator{"p": idObf{}}
 	nameCounter = 0
@@ -136,7 +142,7 @@ func H_C05_L11_traversal() {
 	for _, s := range []string{"variable-string-22", "concat-part-abc", "case-label-string"} {
 		symx.Assert(rewrittenStrings[s], "rewritten: "+s)
 	}
-	for _, s := range []string{"constant-string-1", "typed-constant-xx", "linker-x-variable", "second-name-is-linked", "nosplit-string-x", "short", "7 bytes", "array-length-string"} {
+	for _, s := range []string{"constant-string-1", "typed-constant-xx", "linker-x-variable", "linked-in-parentheses", "linked-by-conversion", "second-name-is-linked", "nosplit-string-x", "short", "7 bytes", "array-length-string"} {
 		symx.Assert(keptLits[s] && !rewrittenStrings[s], "left as a literal: "+s)
 	}
 	symx.Assert(rewrittenBytes == 4, "exactly the four []byte / [N]byte composite literals are rewritten")
